@@ -67,6 +67,15 @@ class Across:
     ensures = ["implies(result == 0, len(lhs_docs) == max(m0, n0))", "result in (0, 31, 32)"]
 
 
+@contract("ext:copy.deepcopy", props=["C18"])
+class DeepCopy:
+    """ASSUMED library contract: a new, equal, unshared copy; recorded as an event so that callers can say WHAT was copied."""
+    assumed = True
+    notes = "copy.deepcopy: the result shares no mutable node with its argument (CPython / ruamel __deepcopy__)"
+    raises = []
+    opts = {"returns": "Any", "event": "('deepcopy', a0, result)"}
+
+
 @contract(YM + "merge_matrix", props=["C18"])
 class Matrix:
     modifies = ["lhs_docs"]
@@ -78,7 +87,10 @@ class Matrix:
         "for lhs_doc in lhs_docs": {"invariant": ["return_state in (0, 41, 42)"]},
         "for rhs_doc in rhs_docs": {
             "invariant": ["return_state in (0, 41, 42)"],
-            "body_ensures": ["len(events) == 1 and events[0][0] is lhs_doc and same(events[0][1], rhs_doc.data)"],
+            # every right-hand document is merged into every left-hand document -- as its OWN copy (documents that adopt
+            # nodes from one right-hand document must not end up sharing them: repaired on the pinned tree)
+            "body_ensures": ["len(events) == 2 and events[0][0] == 'deepcopy' and same(events[0][1], rhs_doc.data) "
+                             "and events[1][0] is lhs_doc and events[1][1] is events[0][2]"],
         },
     }
     ensures = ["len(lhs_docs) == m0", "result in (0, 41, 42)"]
